@@ -197,6 +197,21 @@ class Repo:
                         yield m, f"{c.name}.{n.name}{kind}", n, cl
 
 
+def walk_with_callees(repo, mod, fn, depth=2, _seen=None, skip=()):
+    """ast.walk over fn and over the module-level functions it calls by plain name (same module or imported from the package),
+    `depth` levels deep: a rule that looks for "the call that does X in f" must also find it in a helper f delegates to"""
+    seen = _seen if _seen is not None else set()
+    if id(fn) in seen:
+        return
+    seen.add(id(fn))
+    for n in ast.walk(fn):
+        yield n
+        if depth and isinstance(n, ast.Call) and isinstance(n.func, ast.Name):
+            r = repo.resolve_name(mod, n.func.id)
+            if r and r[0] == "func" and id(r[2]) not in seen and n.func.id not in skip:
+                yield from walk_with_callees(repo, r[1], r[2], depth - 1, seen, skip)
+
+
 def fn_params(fn: ast.FunctionDef):
     a = fn.args
     return [x.arg for x in a.posonlyargs + a.args + a.kwonlyargs]
